@@ -337,6 +337,19 @@ def check(rep, tier, seed):
             bad.append((w30, "release", r30[0], f"{live30[0]} bytes live during the decode of {w30['_len']} input bytes"))
     if live30[1] is None or live30[1] > 262144 + 2048 * plain["_len"]:
         bad.append((plain, "release", r30[1], f"{live30[1]} bytes live during the decode of {plain['_len']} input bytes"))
+    # record headers whose chunk sizes each fit the input while their SUM does not (256 sizes of 8 MiB and of 16 MiB on an
+    # input of that size: the sum is 2^31 and 2^32): an error, in both profiles - never an arithmetic panic, never a value
+    hdr = []
+    for sz in (1 << 23, 1 << 24):
+        body = bytes([255]) + zz(sz) * 256 + bytes(sz)
+        for ty in ("(tup u8)", "(tup u8 str)"):
+            hdr.append({"env": "-", "cmd": "decq", "ty": ty, "hex": body.hex(), "_len": len(body)})
+    for prof, exe in (("release", harness), ("debug", hdebug)):
+        hres = run_side_with_hangs(exe, hdr, wd, "hdr_" + prof, ["--limit-ms=20000"], prof)
+        for c, a in zip(hdr, hres):
+            if a is None or not a.startswith("err "):
+                bad.append((dict(c, hex=c["hex"][:80] + "..."), prof, a, f"a header with 256 chunk sizes of {c['_len'] >> 20} MiB on an input of that size is not rejected: {a}"))
+    rep.coverage["chunk_size_sum_witnesses"] = 2 * len(hdr)
     # negative lengths for zero-width element types (repaired by /repo 843c370): an error at once, in both profiles
     negs = [{"env": "-", "cmd": "dec", "ty": t, "hex": h, "_len": len(h) // 2}
             for t in ("(vec unit)", "(ll unit)", "(hset unit)", "(arr 0 unit)", "(arr 3 unit)", "(vec (box unit))")
